@@ -617,6 +617,23 @@ func isParentClass(
 	isInclude bool,
 ) bool {
 
+	return walkParentClass(
+		sig, frame, class, isStaticTarget, isExtend, isInclude,
+		map[base.ClassNode]bool{},
+	)
+}
+
+// walkParentClass follows the inheritance, include and extend edges upwards;
+// visited keeps the walk finite on cyclic graphs (module M; include M)
+func walkParentClass(
+	sig base.Sig,
+	frame, class string,
+	isStaticTarget bool,
+	isExtend bool,
+	isInclude bool,
+	visited map[base.ClassNode]bool,
+) bool {
+
 	if isExtend && !isStaticTarget {
 		return false
 	}
@@ -640,8 +657,14 @@ func isParentClass(
 
 	classNode := base.ClassNode{Frame: frame, Class: class}
 
+	if visited[classNode] {
+		return false
+	}
+
+	visited[classNode] = true
+
 	for _, parentNode := range base.ClassInheritanceMap[classNode] {
-		if isParentClass(sig, parentNode.Frame, parentNode.Class, isStaticTarget, parentNode.IsExtend, parentNode.IsInclude) {
+		if walkParentClass(sig, parentNode.Frame, parentNode.Class, isStaticTarget, parentNode.IsExtend, parentNode.IsInclude, visited) {
 			return true
 		}
 	}
